@@ -485,7 +485,7 @@ def model_check(wd, module, cfg, what, workers=None, timeout=1800, **kw):
 
 def must_violate(wd, module, cfg, what):
     r = tlc(wd, module, cfg, workers=1, extra=["-noGenerateSpecTE"], timeout=600)
-    if not r.violation:
+    if not (r.violation or r.deadlock):
         raise Infra(f"{what}: the as-found model no longer shows its counterexample")
     return r
 
